@@ -325,6 +325,11 @@ def mon_c04(ctx, out):
 # ------------------------------------------------------------------------------------------------
 def mon_c05(ctx, out):
     tr = ctx.tr
+    if not getattr(tr, "subscribers_agree", True):
+        out.append(("C05", "events:subscribers-differ", len(tr.steps),
+                    f"a second subscriber to the order events received {len(tr.events2)} events, the strategy's "
+                    f"{len(tr.events)}: not the same sequence"))
+        return
     closed_at = {}
     closed_info = {}
     cancelled_ok = set()
@@ -826,6 +831,8 @@ def mon_c11(ctx, out):
         op = st["op"]
         if op[0] == "bar":
             now_us = when_us(st["bar"][1])
+        elif st["op"][0] == "tick":
+            now_us = when_us(st["op"][1])
         prev = tr.steps[k - 1]["snap"] if k > 0 else None
         if not loans_ok(snap):
             continue
